@@ -154,6 +154,20 @@ func main() {
 						fname = strings.TrimPrefix(src(fset, fd.Recv.List[0].Type), "*") + "." + fname
 					}
 					where := rel + ":" + fname
+					// parameters / receiver declared with a non-map type shadow package-level map names
+					notMap := map[string]bool{}
+					var plist []*ast.Field
+					if fd.Recv != nil {
+						plist = append(plist, fd.Recv.List...)
+					}
+					plist = append(plist, fd.Type.Params.List...)
+					for _, f := range plist {
+						if !isMapType(f.Type) {
+							for _, nm := range f.Names {
+								notMap[nm.Name] = true
+							}
+						}
+					}
 					// declared names per function literal for captured writes
 					var walk func(n ast.Node, lits []*ast.FuncLit)
 					declaredIn := map[*ast.FuncLit]map[string]bool{}
@@ -177,7 +191,9 @@ func main() {
 								walk(v.Body, append(lits, v))
 								return false
 							case *ast.RangeStmt:
-								if nm := lastName(v.X); nm != "" && mapNames[nm] {
+								if id, isIdent := v.X.(*ast.Ident); isIdent && notMap[id.Name] {
+									// a plain parameter of non-map type
+								} else if nm := lastName(v.X); nm != "" && mapNames[nm] {
 									mapRange.add(where + ": range " + src(fset, v.X))
 								}
 								if len(lits) > 0 {
